@@ -66,14 +66,15 @@ def generate(ctx, rng):
         if not quick:
             for f, g, h in itertools.product(faults, repeat=3):
                 yield ("fault3", version, f, g, h), {"kind": "faults", "version": version, "seq": [list(f), list(g), list(h)], "level": "lan"}
+                yield ("fault3-dev", version, f, g, h), {"kind": "faults", "version": version, "seq": [list(f), list(g), list(h)], "level": "device"}
         else:
             for _ in range(120):
                 seq = [list(rng.choice(faults)) for _ in range(3)]
                 yield ("fault3", version, tuple(map(tuple, seq))), {"kind": "faults", "version": version, "seq": seq, "level": rng.choice(["lan", "device"])}
         # cancel sweep
         for k in range(0, 65):
-            yield ("cancel", version, k), {"kind": "cancel", "version": version, "at": 0.03 + 0.1 * k,
-                                           "reply_delay": [None, 0.3, 2.25, 4.25][k % 4]}
+            for rd in ([[None, 0.3, 2.25, 4.25][k % 4]] if quick else [None, 0.3, 2.25, 4.25]):
+                yield ("cancel", version, k, rd), {"kind": "cancel", "version": version, "at": 0.03 + 0.1 * k, "reply_delay": rd}
     # finer delay grid (thorough)
     if not quick:
         fine = [None, 0.05, 0.95, 1.95, 2.05, 3.95, 4.05, 5.95, 6.05, 7.95]
